@@ -3,6 +3,7 @@
 #   1. the demonstration passes on the unchanged tree
 #   2. the patch applies, the module builds, the existing tests of the touched packages pass
 #   3. the demonstration fails with the patch
+# SEED_SKIP=<regexp>: existing tests that already fail/hang on the unchanged tree (BASELINE.json flaky / always_fail) are skipped
 # usage: tools/verify_seed.sh <dir with patch.diff + demo_test.go> <package dir of the demo, relative to the repo> [extra go test args]
 set -u
 src=$(realpath "$1"); pkg=$2; shift 2
@@ -23,7 +24,7 @@ rt=0
 for d in $touched; do
   # the demonstration is excluded: only the repository's own tests count here
   mv "$pkg/zz_seed_demo_test.go" /tmp/zz_seed_demo_test.go.$$ 2>/dev/null
-  timeout 1500 go test -vet=off -count=1 -timeout 20m "./$d" 2>&1 | tail -4; x=${PIPESTATUS[0]}
+  timeout 1500 go test -vet=off -count=1 -timeout 20m ${SEED_SKIP:+-skip "$SEED_SKIP"} "./$d" 2>&1 | tail -4; x=${PIPESTATUS[0]}
   mv /tmp/zz_seed_demo_test.go.$$ "$pkg/zz_seed_demo_test.go" 2>/dev/null
   [ $x -ne 0 ] && rt=$x
 done
